@@ -68,3 +68,117 @@ R = Harness(
 )
 
 HARNESSES = [R]
+
+
+# ------------------------------------------------------------------------------ K-comp
+import anyio  # noqa: E402
+
+from .common import pick, run  # noqa: E402
+from .ctree import RT, Env, NodeSpec, build_classes  # noqa: E402
+
+from asphalt.core import Context, ResourceNotFound, start_component  # noqa: E402
+
+
+def comp_params(tier):
+    return [P("node", 0, 1), P("phase", 0, 1), P("intask", 0, 1), P("late_factory", 0, 1), P("sibling_first", 0, 1)]
+
+
+@guard
+def comp_fn(a, tier):
+    node, phase, intask = pick(a["node"], 2), pick(a["phase"], 2), pick(a["intask"], 2)
+    late_factory, sibling_first = pick(a["late_factory"], 2), pick(a["sibling_first"], 2)
+    env = Env()
+    pre, late, sib = object(), object(), object()
+    made = []
+    seen = {}
+
+    def probe(env_, nd):
+        async def go():
+            from asphalt.core import current_context
+
+            owner = seen["owner"]
+
+            async def look():
+                async with Context() as sub:
+                    seen["parent_is_owner"] = sub.parent is owner
+                    seen["sub"] = {i: dict(sub.get_resources(RT[i])) for i in range(4)}
+                    seen["owner_now"] = {i: dict(owner.get_resources(RT[i])) for i in range(4)}
+                    try:
+                        seen["late"] = await sub.get_resource(RT[1], "late")
+                    except ResourceNotFound as e:
+                        seen["late"] = e
+                    try:
+                        seen["fac"] = sub.get_resource_nowait(RT[3], "made") if late_factory else None
+                    except ResourceNotFound as e:
+                        seen["fac"] = e
+                    # what the sub-context adds stays in it
+                    sub.add_resource(object(), "subonly", [RT[0]])
+                seen["owner_after"] = "subonly" in owner.get_resources(RT[0])
+
+            if intask:
+                async with anyio.create_task_group() as tg:
+                    tg.start_soon(look)
+            else:
+                await look()
+
+        return go()
+
+    def factory():
+        made.append(1)
+        return object()
+
+    steps = [("pub", "late", late, "late", [RT[1]])]
+    if late_factory:
+        steps.append(("fac", "latefac", factory, "made", [RT[3]]))
+    steps.append(("call", probe))
+    sib_steps = [("pub", "sib", sib, "sib", [RT[2]])]
+    target_prep = steps if phase == 0 else []
+    target_start = steps if phase == 1 else []
+    if node == 0:
+        nodes = [NodeSpec(0, -1, target_prep, target_start), NodeSpec(1, 0, sib_steps, [])]
+    else:
+        order = [NodeSpec(1, 0, target_prep, target_start, alias="target"), NodeSpec(2, 0, sib_steps, [], alias="sibling")]
+        if sibling_first:
+            order.reverse()
+        nodes = [NodeSpec(0, -1, [], [])] + order
+        nodes.sort(key=lambda n: n.idx)
+    classes = build_classes(env, nodes)
+
+    async def main():
+        async with Context() as owner:
+            seen["owner"] = owner
+            owner.add_resource(pre, "pre", [RT[0]])
+            await start_component(classes[0], {}, timeout=100)
+
+    _, exc, _k = run(main)
+    summary = {"context_created_in": f"{['root', 'child'][node]}.{['prepare', 'start'][phase]}()", "inside_a_spawned_task": bool(intask),
+               "component_also_published_a_factory": bool(late_factory)}
+    if exc is not None:
+        return FAIL(f"comp:raised:{type(exc).__name__}", repr(exc), summary)
+    if not seen.get("parent_is_owner"):
+        return FAIL("comp:parent-is-not-the-callers-context", "", summary)
+    if seen["sub"] != seen["owner_now"]:
+        return FAIL("comp:context-created-inside-a-component-does-not-see-its-parents-resources", f"sub={seen['sub']} owner={seen['owner_now']}", summary)
+    if seen["late"] is not late:
+        return FAIL("comp:late-publication-invisible", repr(seen["late"]), summary)
+    if late_factory and (isinstance(seen["fac"], Exception) or len(made) != 1):
+        return FAIL("comp:late-factory-invisible", repr(seen["fac"]), summary)
+    if seen["owner_after"]:
+        return FAIL("comp:sub-context-addition-leaked-up", "", summary)
+    return OK(summary, True)
+
+
+KCOMP = Harness(
+    prop="C02",
+    name="K-comp",
+    fn=comp_fn,
+    params=comp_params,
+    cube=lambda tier: 0,
+    title="a Context created inside a component's prepare()/start() (ComponentContext current) after the component published resources",
+    bound_text=lambda tier: "created in root/child x prepare/start x directly / in a spawned task x component also published a factory x sibling order",
+    oracle="its parent is the caller's context and its visible set equals the caller's context's at that moment (incl. what was published after the "
+    "tree was built); additions to it do not show up in the caller's context",
+    outside="-",
+    stubs=STUBS_COMMON,
+)
+HARNESSES.append(KCOMP)
